@@ -104,8 +104,14 @@ func TestC15_FollowCrashProbe(t *testing.T) {
 		v, err := conn.Do("FOLLOW", "127.0.0.1", itoa(a.srv.Port))
 		switch {
 		case err != nil:
+			time.Sleep(200 * time.Millisecond) // let the child finish writing its trace (reporting only)
 			tail := stderr()
-			if len(tail) > 300 {
+			if i := strings.Index(tail, "fatal error"); i >= 0 {
+				tail = tail[i:]
+				if len(tail) > 300 {
+					tail = tail[:300]
+				}
+			} else if len(tail) > 300 {
 				tail = tail[len(tail)-300:]
 			}
 			report(fmt.Sprintf("FOLLOW <leader that rejects the password>: connection lost (%v), server alive=%v %s", err, alive(), strings.TrimSpace(tail)))
